@@ -10,8 +10,16 @@ Inductive dtarget := TPath | TStream.
 (* dc_opts = the options the caller passed; dc_v1_given = a WriteAsCarV1 option is among them (its
    value is w_v1 dc_opts).  ForStream prepends WriteAsCarV1(true), which a later explicit option
    overrides; ForPath adds nothing (CARv2 unless asked otherwise). *)
+(* dc_pre = what is at the output path before the writer is used: None = no file, Some b = a file with
+   bytes b (possibly empty, possibly longer than anything the writer will produce).  Irrelevant for a
+   stream target. *)
 Record dcfg := mkdcfg {
-  dc_target : dtarget; dc_opts : wopts; dc_v1_given : bool; dc_nilroots : bool; dc_roots : list bytes }.
+  dc_target : dtarget; dc_opts : wopts; dc_v1_given : bool; dc_nilroots : bool; dc_roots : list bytes;
+  dc_pre : option bytes }.
+
+(* os.OpenFile(path, O_CREATE|O_TRUNC|O_WRONLY): whatever was at the path, the file now exists and is
+   empty.  (Store.open_new starts from exactly this empty file.) *)
+Definition os_create_trunc (pre : option bytes) : bytes := [].
 
 Definition set_v1 (o : wopts) (v1 : bool) : wopts :=
   mkwopts (w_dpad o) (w_ipad o) (w_codec o) (w_zeof o) (w_maxcid o) (w_storeid o) (w_dups o) (w_whole o)
@@ -27,7 +35,8 @@ Definition dc_kind (c : dcfg) : skind :=
 Definition direct_open (c : dcfg) : res wstate :=
   open_new (dc_kind c) (eff_opts c) (dc_nilroots c) (dc_roots c) [].
 
-(* d_inner = dcw.w; d_created = the output file exists (path target); d_cbs = dcw.putCb (id, once) *)
+(* d_inner = dcw.w; d_created = writer() has opened (created / truncated) the output file (path target);
+   d_cbs = dcw.putCb (id, once) *)
 Record dstate := mkd { d_inner : option wstate; d_created : bool; d_cbs : list (N * bool); d_closed : bool }.
 Definition d_init : dstate := mkd None false [] false.
 
@@ -106,9 +115,18 @@ Definition d_step (c : dcfg) (st : dstate) (op : dop) : dstate * dout :=
            end
   end.
 
-(* what can be observed from outside after a step *)
-Definition d_bytes (st : dstate) : bytes := match d_inner st with Some s => ws_file s | None => [] end.
-Definition d_exists (st : dstate) : bool := d_created st.
+(* what can be observed from outside after a step: the bytes on the stream / in the file at the path,
+   and whether a file exists at the path.  Until writer() opens the path the file is whatever was there. *)
+Definition pre_bytes (c : dcfg) : bytes :=
+  match dc_target c, dc_pre c with TPath, Some b => b | _, _ => [] end.
+Definition pre_exists (c : dcfg) : bool :=
+  match dc_target c, dc_pre c with TPath, Some _ => true | _, _ => false end.
+Definition d_bytes (c : dcfg) (st : dstate) : bytes :=
+  match d_inner st with
+  | Some s => ws_file s
+  | None => if d_created st then os_create_trunc (dc_pre c) else pre_bytes c
+  end.
+Definition d_exists (c : dcfg) (st : dstate) : bool := d_created st || pre_exists c.
 
 Fixpoint d_trace (c : dcfg) (st : dstate) (ops : list dop) : list (dstate * dout) :=
   match ops with
